@@ -214,6 +214,8 @@ MUTANTS["C19"] = [
     ("safe-filter-ignored", "annet/generators/result.py", "            if not safe or gr.is_safe:", "            if not safe or gr.is_safe or gr.prio > 100:"),
     ("uploads-old-content", "annet/api/__init__.py", "                    upload_files[file] = file_content.encode()", "                    upload_files[file] = (file_content if len(file_content) < 12 else file_content.rstrip(\"\\n\")).encode()"),
     ("file-diff-empty-for-reordered-lines", "annet/diff.py", "        new_lines = new.splitlines() if new else []\n        context = max(", "        new_lines = new.splitlines() if new else []\n        if sorted(old_lines) == sorted(new_lines):\n            return []\n        context = max("),
+    ("prio-read-from-the-class", "annet/generators/__init__.py", "        prio=gen.prio,\n        perf=pm.last_result,\n        is_safe=gen.is_safe(device),", "        prio=getattr(gen.__class__, \"prio\", 100),\n        perf=pm.last_result,\n        is_safe=gen.is_safe(device),"),
+    ("reload-none-not-defaulted", "annet/generators/entire.py", '        ret = self.reload(device) or ""', "        ret = self.reload(device)"),
 ]
 
 MUTANTS["C10"] = [
